@@ -22,7 +22,7 @@ RULE = ("scenarios of 5-9 result-storing jobs (return values: JSON, None, large,
 ASSUMPTIONS = ["in-memory message broker; result bucket broker in-memory or the real RedisBucketBroker over the fake Redis", "virtual time",
                "a store fault is a ConnectionError raised by the bucket broker's store_bucket"]
 EVAL_COUNTER = "buckets_or_faults_judged"
-REQUIRED = ["buckets_or_faults_judged", "buckets_judged", "fault_runs", "chains_overwritten", "eager_buckets", "disabled_checked", "unencodable_return_buckets", "undescribable_failures", "late_read_polls"]
+REQUIRED = ["buckets_or_faults_judged", "buckets_judged", "fault_runs", "chains_overwritten", "eager_buckets", "disabled_checked", "unencodable_return_buckets", "undescribable_failures", "late_read_polls", "timezone_offset_runs"]
 CASE_TIMEOUT = 150
 
 KINDS = ["value", "none", "large", "exc", "timeout", "chain2", "chain3_fail", "recurring", "eager_ack_res", "eager_nack_exc", "eager_retry_res", "eager_ack_two_sets", "eager_exc_then_res", "eager_res_exc_res", "disabled", "disabled_eager", "badret", "badret_chain", "exc_unprintable", "chain_ttl"]
@@ -42,6 +42,11 @@ def gen_cases(tier, seed):
             if forced not in ks:
                 ks[slot] = forced
         cases.append({"bucket": rnd.choice(["mem", "redis"]), "kinds": ks, "seed": rnd.randrange(10**6), "tl": rnd.choice([1, 3, 1000])})
+    # the same on machines whose local time is behind / ahead of UTC (bucket timestamps are naive local datetimes, the Redis
+    # store is told an absolute expiry time)
+    for i, tz in enumerate(("PST8", "JST-9", "EST5", "IST-5:30") if tier == "thorough" else ("PST8", "JST-9")):
+        ks = [order[(3 * i + j) % len(order)] for j in range(6)]
+        cases.append({"bucket": "redis" if i % 2 == 0 or tier == "quick" else "mem", "kinds": ks, "seed": rnd.randrange(10**6), "tl": 3, "tz": tz, "fault_limit": 3})
     return cases
 
 
@@ -148,6 +153,8 @@ async def scenario(loop, case, fault_at, info):
             jobs = {}
             for i, kind in enumerate(case["kinds"]):
                 script, kw, exp, nexec = plan_job(kind, i, rnd)
+                if case.get("tz") and kw.get("result_ttl") in (None, timedelta(days=1)) and kw.get("store_result"):
+                    kw["result_ttl"] = timedelta(seconds=90)  # (shorter than any UTC offset used here)
                 id_ = f"j{i:02d}"
                 job = w.job("act", id_, script, timeout=timedelta(seconds=1), **kw)
                 await job.enqueue()
@@ -288,6 +295,27 @@ def judge_baseline(case, info, out, stats, fps):
 
 
 def run_case(case):
+    import os
+    import time as _time
+
+    if not case.get("tz"):
+        return _run_case(case)
+    old_tz = os.environ.get("TZ")
+    os.environ["TZ"] = case["tz"]
+    _time.tzset()
+    try:
+        r = _run_case(case)
+        r.setdefault("stats", {})["timezone_offset_runs"] = r["stats"].get("timezone_offset_runs", 0) + 1
+        return r
+    finally:
+        if old_tz is None:
+            os.environ.pop("TZ", None)
+        else:
+            os.environ["TZ"] = old_tz
+        _time.tzset()
+
+
+def _run_case(case):
     from rv.sim import loop as vl
 
     stats = collections.Counter()
@@ -309,7 +337,7 @@ def run_case(case):
     # ---- one run per store call, with that call failing
     n = base["n_store_attempts"]
     sample = {"bucket_broker": case["bucket"], "kinds": case["kinds"], "store_calls_in_baseline": n, "baseline_dispositions": {k: v for k, v in list(base["dispositions"].items())[:4]}}
-    for k in range(n):
+    for k in range(min(n, case.get("fault_limit", n))):
         info = {}
         r2 = vl.run(lambda loop: scenario(loop, case, k, info), max_steps=4_000_000, seed=case["seed"])
         stats["fault_runs"] += 1
